@@ -78,6 +78,14 @@ class Universe(object):
         for c, v in self.comp.items():
             if v['keyid'] in tgt:
                 v['aliases'].append('msg:K2')
+        # a message signed by K1 and by K2 (two issuers): selected by whichever of them is loaded
+        sm = pgpy.PGPMessage.new('signed by two')
+        sm |= self.priv['K1'].sign(sm)
+        sm |= k2.sign(sm)
+        self.special['smsg:K1+K2'] = sm
+        for c, v in self.comp.items():
+            if v['keyid'] in set(sm.signers):
+                v['aliases'].append('smsg:K1+K2')
         self.idents = sorted({a for v in self.comp.values() for a in v['aliases']})
         # absent identifiers (belong to no key of the universe)
         self.idents += ['Nobody', 'zz@nowhere', 'DEADBEEFDEADBEEF']
@@ -192,7 +200,7 @@ def validate(ctx, U, traces, instances, label):
         tid, clause, step, ident = p[1], p[2], p[3], p[4]
         tr = traces[tid - 1]
         hist = [[e['op'], e['x']] for e in tr[:step]]
-        kind = 'special' if str(ident).split(':')[0] in ('sig', 'msg') else 'plain'
+        kind = 'special' if str(ident).split(':')[0] in ('sig', 'msg', 'smsg') else 'plain'
         ctx.violation(clause, 'history-class len=%d ident=%s' % (len(hist), kind), {'history': hist, 'ident': ident, 'obs': tr[step - 1].get('obs')})
     return rej
 
